@@ -42,7 +42,7 @@ def server_strategy(T, stack):
   d = st.sampled_from(palette(T))
   kinds = ['reply', 'reply', 'reply', 'never', 'close', 'reset']
   if stack == 'thrift':
-    kinds += ['eof_mid']
+    kinds += ['eof_mid', 'etimedout']
   else:
     kinds += ['error', 'nack', 'rerr']
   req = st.tuples(st.sampled_from(kinds), d).map(lambda t: [t[0], t[1]] + (['boom'] if t[0] in ('error', 'rerr') else []))
